@@ -19,14 +19,25 @@ def tla_set(xs):
     return "{" + ", ".join(str(x) for x in xs) + "}"
 
 
-def gen(module, constants, invariants, label, chk, timeout=1500, xmx="10g"):
+def gen(module, constants, invariants, label, chk, timeout=1500, xmx="10g", simulate=None, depth=None):
     if module == "MC_LoadScript":
         constants = dict({"CorruptBytes": "{}", "TypedTargets": "{}", "Arch": '"msgpack"', "NumNeg": "0", "NumPos": "0"}, **constants)
     cfg = "SPECIFICATION Spec\nCONSTANTS\n" + "".join("  %s = %s\n" % kv for kv in constants.items()) + \
           "INVARIANTS " + " ".join(invariants) + "\n"
-    r = vlib.tlc(module, cfg=write_cfg("%s_%s.cfg" % (module, label), cfg), timeout=timeout, xmx=xmx)
-    chk.add_tlc("%s %s" % (module, label), r, constants)
-    return r.printed("GEN")
+    r = vlib.tlc(module, cfg=write_cfg("%s_%s.cfg" % (module, label), cfg), timeout=timeout, xmx=xmx, simulate=simulate, depth=depth)
+    chk.add_tlc("%s %s%s" % (module, label, " (simulation)" if simulate else ""), r, constants)
+    out = r.printed("GEN")
+    if simulate:
+        # random behaviours revisit states: keep each scenario once
+        seen = set()
+        uniq = []
+        for s in out:
+            k = json.dumps(s, sort_keys=True)
+            if k not in seen:
+                seen.add(k)
+                uniq.append(s)
+        out = uniq
+    return out
 
 
 def harness(chunk, arch="msgpack"):
